@@ -95,6 +95,14 @@ func c10ValueProp(t *rapid.T, st *vstats.Collector) {
 		}
 	}
 
+	// An independent copy of the value as generated: Encode sorts and
+	// repacks its receiver in place.
+	orig := c10DeepCopy(m)
+	if err := c10Equiv(m, orig, false); err != nil {
+		t.Fatalf("harness: deep copy differs: %v", err)
+	}
+	c10NormaliseOrder(orig)
+
 	b0, err := c10Write(m)
 	if err != nil {
 		t.Fatalf("%T: generated value does not encode: %v", m, err)
@@ -117,6 +125,12 @@ func c10ValueProp(t *rapid.T, st *vstats.Collector) {
 	if err := c10Equiv(m, m1, false); err != nil {
 		t.Fatalf("%T: decode(encode(v)) differs from v: %v\nb0=%x", m, err,
 			c10Head(b0))
+	}
+	// ... and against the value as it was before Encode touched it
+	// (extension caches excepted: they are decided on the bytes).
+	if err := c10Equiv(orig, m1, true); err != nil {
+		t.Fatalf("%T: decode(encode(v)) differs from the value as "+
+			"generated: %v\nb0=%x", m, err, c10Head(b0))
 	}
 	b1, err := c10Write(m1)
 	if err != nil {
